@@ -120,6 +120,18 @@ def pairs(tier):
         add(f"parameterized type dummy shadows a type [{pn}]", tt + " T ::= NULL", f"Mm ::= {pn} {{BOOLEAN}}", f"Mm ::= SEQUENCE {{ a BOOLEAN, n INTEGER (0..{P1}) }}", nonneg)
         add(f"parameterized value dummy shadows a value [{pn}]", tv + " v INTEGER ::= 7", f"Mm ::= {pn} {{{P1}}}", f"Mm ::= INTEGER (0..{P1})", nonneg)
         add(f"parameterized both dummies shadow definitions [{pn}]", tb + " T ::= NULL v INTEGER ::= 7", f"Mm ::= {pn} {{BOOLEAN, {P1}}}", f"Mm ::= SEQUENCE {{ a BOOLEAN, b INTEGER (0..{P1}) }}", nonneg)
+        # ... and a named number / enumeral of ANOTHER type that is spelled the same
+        tr = f"{pn} {{INTEGER: lo, INTEGER: hi}} ::= SEQUENCE {{ a INTEGER (lo..hi) }}"
+        add(f"parameterized value dummies shadow named numbers of another type [{pn}]", tr + " Level ::= INTEGER { lo(0), hi(10) }", f"Mm ::= {pn} {{1, {P1}}}", f"Mm ::= SEQUENCE {{ a INTEGER (1..{P1}) }}", lambda v: [v[0] >= 1])
+        add(f"parameterized value dummies shadow enumerals [{pn}]", tr + " Ee ::= ENUMERATED { lo, hi }", f"Mm ::= {pn} {{1, {P1}}}", f"Mm ::= SEQUENCE {{ a INTEGER (1..{P1}) }}", lambda v: [v[0] >= 1])
+        add(f"parameterized instantiated before and after the template [{pn}]", tv, f"Aa ::= {pn} {{{P1}}} Zz ::= {pn} {{{P1}}}", f"Aa ::= INTEGER (0..{P1}) Zz ::= INTEGER (0..{P1})", nonneg)
+    # templates that instantiate other templates; plain type references inside a template
+    nest = f"Wrap {{T}} ::= SEQUENCE {{ l Lst {{T}} }} Lst {{U}} ::= SEQUENCE (SIZE (0..{P1})) OF U"
+    add("parameterized nested templates, instantiated before and after", nest, "Aa ::= Wrap {BOOLEAN} Zz ::= Wrap {BOOLEAN}",
+        f"Aa ::= SEQUENCE {{ l SEQUENCE (SIZE (0..{P1})) OF BOOLEAN }} Zz ::= SEQUENCE {{ l SEQUENCE (SIZE (0..{P1})) OF BOOLEAN }}", nonneg)
+    nestv = f"Outer {{INTEGER: n}} ::= SEQUENCE {{ i Inner {{n}} }} Inner {{INTEGER: n}} ::= INTEGER (0..n)"
+    add("parameterized nested value templates, instantiated before and after", nestv, f"Aa ::= Outer {{{P1}}} Zz ::= Outer {{{P1}}}", f"Aa ::= SEQUENCE {{ i INTEGER (0..{P1}) }} Zz ::= SEQUENCE {{ i INTEGER (0..{P1}) }}", nonneg)
+    add("parameterized template with a plain type reference", f"Other ::= INTEGER (0..{P1}) P {{T}} ::= SEQUENCE {{ o Other, t T }}", "Mm ::= P {BOOLEAN}", "Mm ::= SEQUENCE { o Other, t BOOLEAN }", nonneg)
     # ---- selection types
     for cn in ('C', 'Zc'):
         ch = f"{cn} ::= CHOICE {{ a INTEGER (0..{P1}), b BOOLEAN, c SEQUENCE {{ z NULL }} }}"
